@@ -40,14 +40,11 @@ Proof. intros Hfm. induction todo as [|a r IH]; intros pre post Ht; [reflexivity
   cbn [length band_loop app]. rewrite rd_app_r0. change (rd (a :: r ++ post) 0) with (Some a). cbv iota zeta.
   rewrite E1, wr_app, E2. rewrite rd_ok by (rewrite Z.shiftr_div_pow2 by lia; change (2 ^ 3) with 8; lia).
   cbn [loop_spec]. unfold supported at 1. rewrite Z.shiftr_div_pow2 by lia. change (2 ^ 3) with 8.
-  pose proof (bit_test (zn fm (bidx pcs a / 8)) (bidx pcs a) ltac:(lia)) as Hbt.
-  destruct (Z.testbit (zn fm (bidx pcs a / 8)) (bidx pcs a mod 8)).
-  - replace (Z.land (zn fm (bidx pcs a / 8)) (Z.shiftl 1 (Z.land (bidx pcs a) 7)) =? 0) with false by (destruct (Z.land _ _ =? 0); [discriminate|reflexivity]).
-    replace (pre ++ conv pcs a :: r ++ post) with ((pre ++ [conv pcs a]) ++ r ++ post) by (rewrite <- app_assoc; reflexivity).
-    replace (Zlength pre + 1) with (Zlength (pre ++ [conv pcs a])) by (rewrite Zlength_app, Zlength_cons, Zlength_nil; lia).
-    rewrite IH by exact Hr. cbn [fst snd]. rewrite <- app_assoc. reflexivity.
-  - replace (Z.land (zn fm (bidx pcs a / 8)) (Z.shiftl 1 (Z.land (bidx pcs a) 7)) =? 0) with true by (destruct (Z.land _ _ =? 0); [reflexivity|discriminate]).
-    reflexivity. Qed.
+  rewrite <- (bit_test (zn fm (bidx pcs a / 8)) (bidx pcs a)) by lia.
+  destruct (Z.land (zn fm (bidx pcs a / 8)) (Z.shiftl 1 (Z.land (bidx pcs a) 7)) =? 0); cbn [negb]; [reflexivity|].
+  replace (pre ++ conv pcs a :: r ++ post) with ((pre ++ [conv pcs a]) ++ r ++ post) by (rewrite <- app_assoc; reflexivity).
+  replace (Zlength pre + 1) with (Zlength (pre ++ [conv pcs a])) by (rewrite Zlength_app, Zlength_cons, Zlength_nil; lia).
+  rewrite IH by exact Hr. cbn [fst snd]. rewrite <- app_assoc. reflexivity. Qed.
 
 (* ------------------------------------------------------------------ what the loop does, as list facts *)
 Lemma loop_rc fm pcs todo : fst (loop_spec fm pcs todo) = if forallb (supported fm pcs) todo then 0 else 8.
